@@ -27,6 +27,8 @@ _f = os.path.realpath(M['ssh_audit'].__file__)
 if not _f.startswith(os.path.realpath(_SRC) + os.sep):
     raise vnet.HarnessError('ssh_audit imported from %s, expected under %s' % (_f, _SRC))
 vnet.install(M)
+from . import sched as _sched  # noqa: E402
+_sched.install(M)
 
 ENTRY = os.path.join(REPO, 'ssh-audit.py')
 _ENTRY_CODE = None
